@@ -112,3 +112,36 @@ addb d1, d1, s1
 .source 4 s1
 .source 4 s2
 addf d1, s1, s2
+
+.function c07_n255
+.n 255
+.dest 1 d1
+.source 1 s1
+.param 1 p1
+addb d1, s1, p1
+
+.function c07_n256
+.n 256
+.dest 2 d1
+.source 2 s1
+addw d1, d1, s1
+
+.function c07_m255
+.flags 2d
+.m 255
+.dest 1 d1
+.source 1 s1
+copyb d1, s1
+
+.function c07_nbounds
+.n mult 8 min 16 max 4096
+.dest 4 d1
+.source 4 s1
+.const 4 c1 0x80000000
+addl d1, s1, c1
+
+.function c07_const64
+.dest 8 d1
+.source 8 s1
+.const 8 c1 0x0123456789abcdefL
+xorq d1, s1, c1
